@@ -97,7 +97,18 @@ impl StringPoolBuilder {
             ),
         };
         let mut lengths_and_refcounts = Vec::<(u32, u16)>::new();
-        while let Ok(length) = reader.read_u16::<LittleEndian>() {
+        loop {
+            // The pool ends where the stream ends; any other read error is a
+            // real error, not the end of the pool.
+            let length = match reader.read_u16::<LittleEndian>() {
+                Ok(length) => length,
+                Err(ref error)
+                    if error.kind() == io::ErrorKind::UnexpectedEof =>
+                {
+                    break;
+                }
+                Err(error) => return Err(error),
+            };
             let mut length = length as u32;
             let mut refcount = reader.read_u16::<LittleEndian>()?;
             if length == 0 && refcount > 0 {
@@ -304,7 +315,9 @@ impl StringPool {
             writer.write_u16::<LittleEndian>((length & 0xffff) as u16)?;
             writer.write_u16::<LittleEndian>(refcount)?;
         }
-        Ok(())
+        // Flush explicitly: if the writer is a buffered stream, an error
+        // while writing out its buffer on drop would go unnoticed.
+        writer.flush()
     }
 
     /// Writes to the `_StringData` table.
@@ -312,7 +325,7 @@ impl StringPool {
         for (string, _) in self.strings.iter() {
             writer.write_all(&self.codepage.encode(string.as_str()))?;
         }
-        Ok(())
+        writer.flush()
     }
 }
 
